@@ -219,6 +219,17 @@ impl Kind {
         }
     }
 
+    /// Result is a byte count that may legitimately be short.
+    pub fn transfers_bytes(self) -> bool {
+        use Kind::*;
+        matches!(
+            self,
+            ReadVec | ReadVecPrefilled | ReadVectored2 | Recv | RecvVectored | RecvFrom | RecvFromVectored | ReadLimited
+                | WriteVec | WriteStatic | WriteString | WriteBoxed | WriteArc | WriteVectored2 | WriteVectoredTuple
+                | Send | SendTo | SendVectored | ReadPool | RecvPool | ReadN | WriteAll | WriteAllVectored | SendAll
+        )
+    }
+
     pub fn needs_pool(self) -> bool {
         matches!(self.class(), Class::PoolOne | Class::StreamBuf)
     }
